@@ -49,7 +49,7 @@ type TypedConstant struct {
 func (constant *TypedConstant) DeepCopy() TypedConstant {
 	return TypedConstant{
 		Type:  constant.Type.DeepCopy(),
-		Value: constant.Value,
+		Value: deepCopyValue(constant.Value),
 	}
 }
 
